@@ -48,3 +48,51 @@ def linear_pair(work, rng, g, nbands, coeffs, smask, tag='l'):
                     ref[b, rr, cc] = a * float(x[b, i, j]) + c
     synth.write_tif(rfn, ref.astype('float32'), g.ref_transform)
     return dict(src_fn=sfn, ref_fn=rfn, src=src, ref=ref.astype('float32'), smask=smask, x=x, ref_win=rw)
+
+
+def blockwise_x_consistent(pair, max_block_mem, kernel_shape, rtol=1e-5):
+    """Does every block see the same x as the whole-window x the reference was built from?  (It does not when block-origin float noise
+    gives GDAL's average resampling a ~1e-10 pixel sliver at the footprint edge - known finding D10 - and then the premise
+    'reference = a * x + b where x is the source as seen on the processing grid' does not hold for that run.)"""
+    from homonim.raster_pair import RasterPairReader
+    from homonim.enums import ProcCrs
+    from homonim import utils
+    from rasterio.enums import Resampling
+    x, rw = pair['x'], pair['ref_win']
+    with RasterPairReader(pair['src_fn'], pair['ref_fn'], proc_crs=ProcCrs.ref) as rd:
+        for bp in rd.block_pairs(overlap=utils.overlap_for_kernel(tuple(kernel_shape)), max_block_mem=max_block_mem):
+            src_ra, ref_ra = rd.read(bp)
+            xb = np.array(src_ra.reproject(**ref_ra.proj_profile, resampling=Resampling.average).array)
+            w = bp.ref_in_block
+            bi = list(rd.src_bands).index(rd.src_bands[bp.band_i])
+            r0, c0 = int(w.row_off - rw.row_off), int(w.col_off - rw.col_off)
+            xw = x[bi, r0:r0 + int(w.height), c0:c0 + int(w.width)]
+            if xw.shape != xb.shape or np.any(np.isnan(xw) != np.isnan(xb)):
+                return False
+            ok = ~np.isnan(xw)
+            if np.any(np.abs(xw[ok] - xb[ok]) > rtol * (np.abs(xw[ok]) + 1)):
+                return False
+    return True
+
+
+def block_x_validity_diffs(src_fn, ref_fn, max_block_mem, kernel_shape):
+    """Reference-grid (row, col) positions - in the parameter image's frame - where some block's down-sampled source is valid and the
+    whole-window down-sampled source is not, or vice versa (a sliver-overlap artefact of GDAL's average resampling: finding D10)."""
+    from homonim.raster_pair import RasterPairReader
+    from homonim.enums import ProcCrs
+    from homonim import utils
+    from rasterio.enums import Resampling
+    x, rw = source_on_proc_grid(src_fn, ref_fn)
+    out = set()
+    with RasterPairReader(src_fn, ref_fn, proc_crs=ProcCrs.ref) as rd:
+        for bp in rd.block_pairs(overlap=utils.overlap_for_kernel(tuple(kernel_shape)), max_block_mem=max_block_mem):
+            src_ra, ref_ra = rd.read(bp)
+            xb = np.array(src_ra.reproject(**ref_ra.proj_profile, resampling=Resampling.average).array)
+            w = bp.ref_in_block
+            r0, c0 = int(w.row_off - rw.row_off), int(w.col_off - rw.col_off)
+            xw = x[bp.band_i, r0:r0 + int(w.height), c0:c0 + int(w.width)]
+            if xw.shape != xb.shape:
+                continue
+            for (r, c) in np.argwhere(np.isnan(xw) != np.isnan(xb)):
+                out.add((int(w.row_off + r), int(w.col_off + c)))
+    return sorted(out)
